@@ -246,6 +246,8 @@ class Session:
                     return
         if o.kind == "post-outside-region":
             return   # reported through its parent obligation
+        if entry is None and self._over_cap(o):
+            return
         o.materialise()
         if entry is not None:
             if entry["region"]:
@@ -282,6 +284,34 @@ class Session:
         if o is not None:
             o.verdict["known"] = entry["key"]
 
+    MAX_REPLAYS_PER_FUNCTION = 3
+    MAX_REPLAYS_TOTAL = 8
+    MAX_REGENERATED_TASKS = 3
+
+    def _over_cap(self, o: Obligation):
+        """a broken function usually fails on many paths: the first few failing obligations of a function (and of the run)
+        get a model, a replay file and a native replay; the rest are counted and listed in evidence (bounded work on a
+        broken tree -- regenerating a task and replaying natively cost seconds each)"""
+        fn_key = o.id.split("/post@")[0].split("/no-")[0].split("/exc-")[0].split("/call-pre/")[0]
+        seen = self._per_fn_reports = getattr(self, "_per_fn_reports", {})
+        seen[fn_key] = seen.get(fn_key, 0) + 1
+        total = sum(min(n, self.MAX_REPLAYS_PER_FUNCTION) for n in seen.values())
+        # obligations that came from a worker are regenerated task by task in this process to get z3 objects back:
+        # at most MAX_REGENERATED_TASKS tasks are regenerated
+        tasks = self._regen_tasks = getattr(self, "_regen_tasks", [])
+        rg = getattr(o, "regen", None)
+        new_task = rg is not None and not o.assertions and all(rg is not t for t in tasks)
+        if (seen[fn_key] <= self.MAX_REPLAYS_PER_FUNCTION and total <= self.MAX_REPLAYS_TOTAL
+                and not (new_task and len(tasks) >= self.MAX_REGENERATED_TASKS)):
+            if new_task:
+                tasks.append(rg)
+            return False
+        if not getattr(self, "_cap_announced", False):
+            self._cap_announced = True
+            print("  further failing obligations are listed in the evidence file only (replay cap reached)", flush=True)
+        self.violations.append(dict(obligation=o.id, replay=None, reproduced=False, note="not replayed (cap)"))
+        return True
+
     def report_violation(self, o: Obligation):
         os.makedirs(os.path.join(OUT_ROOT, "replays"), exist_ok=True)
         safe = "".join(ch if ch.isalnum() or ch in "-_." else "_" for ch in o.id)
@@ -316,26 +346,43 @@ class Session:
         print(f"  failed obligation: {o.id} ({o.kind}); replay: {'reproduced on the real code' if reproduced else 'no failing input found'}", flush=True)
         self.violations.append(dict(obligation=o.id, replay=path, reproduced=bool(reproduced)))
 
+    MODEL_BUDGET_S = 25        # per failed obligation
+    MODEL_BUDGET_RUN_S = 180   # per run (a broken tree fails many obligations; the verdict does not depend on the models)
+
     def shrunk_model(self, o: Obligation):
-        """a model of the failed obligation with small lists (B = 2, 3, 6), on the bounded expansion first"""
+        """a model of the failed obligation with small lists (B = 2, 3, 6), on the bounded expansion first; bounded time"""
         from .smt import bounded_expand
         from .sym import length_constraints
-        for B in (getattr(o, "expanded_B", None) or 2, 3, 6):
-            size = []
-            for v in o.inputs.values():
-                size += length_constraints(v, B)
-            try:
-                exp = bounded_expand(o.assertions + size, max(B, 2))
-                model, r = solve_model(exp + theory_axioms(exp), timeout_ms=min(self.timeout_ms, 10000))
+        spent = self._model_time = getattr(self, "_model_time", 0.0)
+        t0 = time.time()
+
+        def left():
+            return min(self.MODEL_BUDGET_S - (time.time() - t0), self.MODEL_BUDGET_RUN_S - spent - (time.time() - t0))
+
+        def attempt(assertions):
+            ms = int(min(left(), 10) * 1000)
+            if ms < 500:
+                return None
+            model, _ = solve_model(assertions, timeout_ms=ms)
+            return model
+        try:
+            for B in (getattr(o, "expanded_B", None) or 2, 3, 6):
+                size = []
+                for v in o.inputs.values():
+                    size += length_constraints(v, B)
+                try:
+                    exp = bounded_expand(o.assertions + size, max(B, 2))
+                    model = attempt(exp + theory_axioms(exp))
+                    if model is not None:
+                        return model
+                except Exception:
+                    pass
+                model = attempt(o.assertions + size + theory_axioms(o.assertions))
                 if model is not None:
                     return model
-            except Exception:
-                pass
-            model, r = solve_model(o.assertions + size + theory_axioms(o.assertions), timeout_ms=min(self.timeout_ms, 10000))
-            if model is not None:
-                return model
-        model, _ = solve_model(o.assertions + theory_axioms(o.assertions), timeout_ms=self.timeout_ms)
-        return model
+            return attempt(o.assertions + theory_axioms(o.assertions))
+        finally:
+            self._model_time = spent + (time.time() - t0)
 
     # ------------------------------------------------------------------ bounded stand-ins (native)
     def standin(self, module, name=None, extra_args=()):
